@@ -472,4 +472,183 @@ Proof.
   rewrite E3, E2. exact Hnt1.
 Qed.
 
+(* ---- what a confirmation with skips leaves of the plan ---- *)
+Lemma remove_paths_in {V} rm (l : list (path * V)) x : In x (remove_paths rm l) <-> In x l /\ ~ In (fst x) rm.
+Proof.
+  unfold remove_paths. rewrite filter_In. split; intros [H1 H2]; split; auto.
+  - intros Hin. apply negb_true_iff in H2. assert (existsb (path_eqb (fst x)) rm = true); [|congruence].
+    apply existsb_exists. exists (fst x). split; [exact Hin|]. unfold path_eqb. destruct (path_eq_dec (fst x) (fst x)); [reflexivity|congruence].
+  - apply negb_true_iff. destruct (existsb (path_eqb (fst x)) rm) eqn:E; [|reflexivity]. exfalso. apply H2.
+    apply existsb_exists in E as (y & Hy & Hxy). unfold path_eqb in Hxy. destruct (path_eq_dec (fst x) y); [subst; exact Hy|discriminate].
+Qed.
+
+Lemma nodup_keys_filter {V} (f : path * V -> bool) (l : list (path * V)) : NoDup (map fst l) -> NoDup (map fst (filter f l)).
+Proof.
+  induction l as [|x l IH]; cbn [map filter]; intros H; [constructor|]. inversion H as [|? ? Hn Hnd]; subst.
+  destruct (f x); [|apply IH; exact Hnd]. cbn [map]. constructor; [|apply IH; exact Hnd].
+  intros Hin. apply Hn. apply in_map_iff in Hin as (y & Hy & Hyin). apply filter_In in Hyin as [Hyin _].
+  rewrite <- Hy. apply in_map. exact Hyin.
+Qed.
+
+Lemma keys_filter_in {V} (f : path * V -> bool) (l : list (path * V)) p : In p (map fst (filter f l)) -> In p (map fst l).
+Proof. intros H. apply in_map_iff in H as (y & <- & Hy). apply filter_In in Hy as [Hy _]. apply in_map. exact Hy. Qed.
+
+Lemma before_filter {V} (f : path * V -> bool) (l : list (path * V)) a b :
+  NoDup (map fst l) -> before a b (map fst l) ->
+  In a (map fst (filter f l)) -> In b (map fst (filter f l)) -> before a b (map fst (filter f l)).
+Proof.
+  induction l as [|x l IH]; cbn [map filter]; intros Hnd Hb Ha Hbb; [destruct Ha|].
+  inversion Hnd as [|? ? Hn Hnd']; subst.
+  inversion Hb as [l0 Hin|x0 l0 Hb']; subst.
+  - (* a is the head *)
+    destruct (f x) eqn:Ef; cbn [map] in *.
+    + apply before_here. destruct Hbb as [Hbb|Hbb]; [exfalso; apply Hn; rewrite Hbb; exact Hin|exact Hbb].
+    + exfalso. apply Hn. eapply keys_filter_in; exact Ha.
+  - assert (Han : a <> fst x) by (intros ->; apply Hn; eapply before_in_l; eauto).
+    assert (Hbn : b <> fst x) by (intros ->; apply Hn; eapply before_in_r; eauto).
+    destruct (f x); cbn [map] in *.
+    + apply before_skip. apply IH; auto; [destruct Ha as [Ha|Ha]; [congruence|exact Ha]|destruct Hbb as [Hbb|Hbb]; [congruence|exact Hbb]].
+    + apply IH; auto.
+Qed.
+
+Theorem no_run_goes_through_a_link cfg S D ans bits ls ld ft :
+  valid_listing S ls -> valid_listing (d_fs D) ld ->
+  parents_first (lkeys (side_listing S ls)) -> parents_first (lkeys (side_listing (d_fs D) ld)) ->
+  wf_fs (d_fs D) -> no_through (d_events D) ->
+  no_through (d_events (r_dest (sync_one cfg S D ans bits ls ld ft))).
+Proof.
+  intros HvS HvD HpfS HpfD HwD Hnt0. unfold Sync.sync_one, fail_result.
+  destruct (side_listing_spec now_z incl normalize S ls HvS) as (HndS & HeS & HkS).
+  destruct (side_listing_spec now_z incl normalize (d_fs D) ld HvD) as (HndD & HeD & HkD).
+  set (Ls := side_listing S ls) in *. set (Ld := side_listing (d_fs D) ld) in *.
+  unfold Mirror.side_listing in Ls, Ld.
+  destruct (fget S []) as [sn|] eqn:ErS; [|exact Hnt0].
+  match goal with |- context [match ?g with inl _ => _ | inr _ => _ end] => destruct g as [[ans1 np1]|[[|] np]] end;
+    try exact Hnt0.
+  match goal with |- context [actions_of ?d ?s ?a] => set (arr := a); set (ss := s) end.
+  assert (Hsrcs : srcs path entry arr = Ls).
+  { unfold arr, Ls. rewrite srcs_cons_src. f_equal. rewrite srcs_app_c.
+    match goal with |- context [interleave bits ?a ?b] => destruct (interleave_projections bits a b) as [I1 _]; rewrite I1 end.
+    destruct (option_map entry_of (fget (d_fs D) [])); cbn; destruct sn; reflexivity. }
+  assert (Hdests : dests path entry arr = Ld).
+  { unfold arr, Ld. rewrite dests_cons_src, dests_app_c.
+    match goal with |- context [interleave bits ?a ?b] => destruct (interleave_projections bits a b) as [_ I2]; rewrite I2 end.
+    destruct (fget (d_fs D) []) as [[| |]|]; reflexivity. }
+  rewrite (actions_of_spec (cf_diff cfg) ss arr) by (rewrite ?Hsrcs, ?Hdests; assumption).
+  rewrite Hsrcs, Hdests.
+  set (acts := plan_spec (cf_diff cfg) ss Ls Ld).
+  set (pre := match option_map entry_of (fget (d_fs D) []) with None => if cf_dry cfg then [] else [DestCmd CCreateRootAncestors] | Some _ => [] end).
+  set (r0 := mkR D _ _ [] false 0 0 None).
+  set (r1 := run_steps (cf_fl cfg) ft r0 pre).
+  (* after the pre step *)
+  assert (Hst1 : d_fs (rs_d r1) = d_fs D /\
+                 (d_events (rs_d r1) = d_events D \/ d_events (rs_d r1) = d_events D ++ [CreatedAncestors])).
+  { unfold r1, pre. destruct (option_map entry_of (fget (d_fs D) [])); [|destruct (cf_dry cfg)];
+      try (cbn [run_steps fold_left]; split; [reflexivity|left; reflexivity]).
+    change (run_steps (cf_fl cfg) ft r0 [DestCmd CCreateRootAncestors]) with (run_step (cf_fl cfg) ft r0 (DestCmd CCreateRootAncestors)).
+    destruct (pre_step (cf_fl cfg) ft r0) as (P1 & P2 & _). split; [exact P1|exact P2]. }
+  destruct Hst1 as (Hfs1 & Hev1).
+  assert (Hnt1 : no_through (d_events (rs_d r1))).
+  { destruct Hev1 as [-> | ->]; [exact Hnt0|apply no_through_snoc_anc; exact Hnt0]. }
+  destruct (confirm (cf_b cfg) ans1 acts) as [|acts' skipped b2 a2 np2] eqn:Ec; [exact Hnt1|].
+  destruct (cf_dry cfg) eqn:Edry; [exact Hnt1|].
+  cbn [r_dest].
+  (* what the confirmation left of the plan *)
+  unfold confirm in Ec.
+  destruct (confirm_deletes (b_entry (cf_b cfg)) ans1 (a_delete acts) []) as [[[[rmd be] ansd] nd]|] eqn:Ecd; [|discriminate].
+  set (kept := kept_in_the_way rmd (a_delete acts)) in *.
+  set (copies1 := filter (not_blocked kept) (a_copy acts)) in *.
+  destruct (confirm_copies _ ansd copies1 nd) as [[[[rmc bc] ansc] nc]|] eqn:Ecc; [|discriminate].
+  inversion Ec; subst acts' skipped b2 a2 np2. clear Ec. cbn [a_delete a_copy].
+  set (dl' := remove_paths rmd (a_delete acts)). set (cl' := remove_paths rmc copies1).
+  (* ---- the static facts of the plan ---- *)
+  assert (NdD0 : NoDup (map fst (a_delete acts))) by (apply nodup_delete_keys; auto).
+  assert (NdC0 : NoDup (map fst (a_copy acts))) by (apply nodup_copy_keys; auto).
+  assert (NdD : NoDup (map fst dl')) by (apply nodup_keys_filter; exact NdD0).
+  assert (NdC : NoDup (map fst cl')) by (apply nodup_keys_filter; apply nodup_keys_filter; exact NdC0).
+  assert (Hcl_sub : forall x, In x cl' -> In x (a_copy acts) /\ not_blocked kept x = true).
+  { intros x Hx. apply remove_paths_in in Hx as [Hx _]. apply filter_In in Hx. exact Hx. }
+  assert (HinS : forall q, In q (lkeys Ls) -> exists n, fget S q = Some n /\ In (q, entry_of n) Ls).
+  { intros q Hq. apply in_map_iff in Hq as ([q' e] & <- & Hin). destruct (HeS _ _ Hin) as (n & En & ->). eauto. }
+  assert (HinD : forall q, In q (lkeys Ld) -> exists n, fget (d_fs D) q = Some n /\ In (q, entry_of n) Ld).
+  { intros q Hq. apply in_map_iff in Hq as ([q' e] & <- & Hin). destruct (HeD _ _ Hin) as (n & En & ->). eauto. }
+  assert (HdD : forall q, In q (map fst (a_delete acts)) -> In q (lkeys Ld)).
+  { intros q Hq. unfold acts in Hq. cbn [plan_spec a_delete] in Hq. rewrite map_rev in Hq. apply in_rev in Hq.
+    eapply subseq_in; [apply keys_delete_subseq | exact Hq]. }
+  (* a destination link at a path where the source has something else is deleted for that reason *)
+  assert (Hway : forall q es t k, takes_part S q -> In (q, es) Ls -> (forall k' t', es <> ESymlink k' t') ->
+                   fget (d_fs D) q = Some (NLink t k) -> In (q, (entry_of (NLink t k), Incompatible)) (a_delete acts)).
+  { intros q es t k HtS HinLs Hnl Hlink.
+    assert (HtpD : takes_part (d_fs D) q).
+    { destruct q as [|c q']; [left; reflexivity|]. right.
+      assert (HrD : fget (d_fs D) [] = Some NFolder) by (apply (HwD _ _ Hlink); apply nil_strict_prefix; discriminate).
+      split; [exact HrD|].
+      destruct HtS as [Hx|[_ HvS']]; [discriminate|]. apply visible_iff in HvS' as (_ & Hi & Hpre).
+      apply visible_iff. split; [discriminate|]. split; [exact Hi|].
+      intros q2 Hq1 Hq2. split; [apply (Hpre q2 Hq1 Hq2)|apply (HwD _ _ Hlink); exact Hq2]. }
+    assert (HpD : In q (lkeys Ld)) by (apply HkD; split; [exact HtpD|congruence]).
+    destruct (HinD q HpD) as (nd0 & EnD & HinLd). rewrite Hlink in EnD. inversion EnD; subst nd0.
+    apply in_delete_iff. split; [exact HinLd|].
+    unfold delete_dec, delete_decision. rewrite (alookup_in Ls q es HndS HinLs).
+    assert (Hnd : needs_delete (cf_diff cfg) es (entry_of (NLink t k)) = true).
+    { cbn [Fs.entry_of]. destruct es as [mt sz| |k' t']; [reflexivity|reflexivity|exfalso; eapply Hnl; reflexivity]. }
+    rewrite Hnd. left; reflexivity. }
+  (* ... and if the user kept it, nothing at or below it is copied (the F6a repair) *)
+  assert (Hway' : forall p e r q es t k, In (p, (e, r)) cl' -> is_prefix q p = true -> takes_part S q -> In (q, es) Ls ->
+                    (forall k' t', es <> ESymlink k' t') -> fget (d_fs D) q = Some (NLink t k) -> In q (map fst dl')).
+  { intros p e r q es t k Hin Hqp HtS HinLs Hnl Hlink.
+    pose proof (Hway q es t k HtS HinLs Hnl Hlink) as Hd.
+    change q with (fst (q, (entry_of (NLink t k), Incompatible))). apply in_map. apply remove_paths_in. split; [exact Hd|].
+    cbn [fst]. intros Hrm. destruct (Hcl_sub _ Hin) as [_ Hnb]. unfold not_blocked in Hnb. apply negb_true_iff in Hnb.
+    assert (Hex : existsb (fun k0 => is_prefix k0 (fst (p, (e, r)))) kept = true); [|congruence].
+    apply existsb_exists. exists q. split; [|exact Hqp].
+    unfold kept, kept_in_the_way. change q with (fst (q, (entry_of (NLink t k), Incompatible))). apply in_map.
+    apply filter_In. split; [exact Hd|]. cbn [fst snd]. apply andb_true_iff. split; [|reflexivity].
+    apply existsb_exists. exists q. split; [exact Hrm|]. unfold path_eqb. destruct (path_eq_dec q q); [reflexivity|congruence]. }
+  assert (Hsrc_of : forall p e r, In (p, (e, r)) cl' -> In (p, e) Ls /\ takes_part S p).
+  { intros p e r Hin. destruct (Hcl_sub _ Hin) as [Hin0 _]. apply in_copy_iff in Hin0 as [HinLs _]. split; [exact HinLs|].
+    assert (HpS : In p (lkeys Ls)) by (change p with (fst (p, e)); apply in_map; exact HinLs).
+    apply (proj1 (HkS p) HpS). }
+  assert (Hpre_of : forall p e r q, In (p, (e, r)) cl' -> is_strict_prefix q p = true ->
+                      takes_part S q /\ In (q, EFolder) Ls).
+  { intros p e r q Hin Hq. destruct (Hsrc_of p e r Hin) as [HinLs HtpS].
+    assert (Hpne : p <> []) by (intros ->; destruct q; discriminate).
+    destruct (prefixes_of_visible incl S p q HtpS Hpne Hq) as [HfqS HtqS]. split; [exact HtqS|].
+    assert (HqS : In q (lkeys Ls)) by (apply HkS; split; [exact HtqS|congruence]).
+    destruct (HinS q HqS) as (nq & Enq & HinLq). rewrite HfqS in Enq. inversion Enq; subst nq. exact HinLq. }
+  assert (C1 : forall p e r q t k, In (p, (e, r)) cl' -> is_strict_prefix q p = true ->
+                 fget (d_fs D) q = Some (NLink t k) -> In q (map fst dl')).
+  { intros p e r q t k Hin Hq Hl. destruct (Hpre_of p e r q Hin Hq) as [HtqS HinLq].
+    apply (Hway' p e r q EFolder t k Hin (strict_is_prefix q p Hq) HtqS HinLq); [discriminate|exact Hl]. }
+  assert (C2 : forall p e r q k t rr, In (p, (e, r)) cl' -> is_strict_prefix q p = true ->
+                 ~ In (q, (ESymlink k t, rr)) cl').
+  { intros p e r q k t rr Hin Hq Hbad. destruct (Hpre_of p e r q Hin Hq) as [_ HinLq].
+    destruct (Hcl_sub _ Hbad) as [Hbad0 _]. apply in_copy_iff in Hbad0 as [HbadLs _].
+    pose proof (alookup_in Ls q EFolder HndS HinLq) as A1. rewrite (alookup_in Ls q (ESymlink k t) HndS HbadLs) in A1. discriminate. }
+  assert (C3 : forall p mt sz r t k, In (p, (EFile mt sz, r)) cl' -> fget (d_fs D) p = Some (NLink t k) ->
+                 In p (map fst dl')).
+  { intros p mt sz r t k Hin Hl. destruct (Hsrc_of p _ r Hin) as [HinLs HtpS].
+    apply (Hway' p _ r p (EFile mt sz) t k Hin (is_prefix_refl p) HtpS HinLs); [discriminate|exact Hl]. }
+  (* ---- the delete phase ---- *)
+  unfold Sync.exec_steps. cbn [a_delete a_copy]. fold dl' cl'. rewrite run_steps_app.
+  assert (HinvD : DelInv r1 dl').
+  { intros p Hp Hpne q Hq. rewrite Hfs1.
+    assert (Hp0 : In p (map fst (a_delete acts))) by (eapply keys_filter_in; exact Hp).
+    destruct (proj1 (HkD p) (HdD p Hp0)) as [Htp _].
+    destruct (prefixes_of_visible incl (d_fs D) p q Htp Hpne Hq) as [Hfq _]. split; [exact Hfq|].
+    intros Hqin. assert (Hq0 : In q (map fst (a_delete acts))) by (eapply keys_filter_in; exact Hqin).
+    apply before_filter; auto. apply (delete_order (cf_diff cfg) ss Ls Ld HndD HpfD q p Hq0 Hp0 Hq). }
+  assert (HL1 : LInv ft (d_fs D) r1 [] cl').
+  { intros q t k Hl. rewrite Hfs1 in Hl. right; right; left. split; [exact Hl|intros []]. }
+  destruct (delete_phase (cf_fl cfg) ft (d_fs D) dl' r1 [] cl' NdD HinvD HL1) as (proc' & Hproc & E2 & L2 & _).
+  set (r2 := run_steps (cf_fl cfg) ft r1 (map (fun e => DestCmd (delete_cmd e)) dl')) in *.
+  (* ---- the copy phase ---- *)
+  assert (Hbel : forall s, In s (flat_map (copy_steps chunker S) cl') -> belongs cl' s).
+  { intros s Hs. apply in_flat_map in Hs as (e & He & Hs). eapply copy_steps_belong; eauto. }
+  destruct (copy_steps_all (cf_fl cfg) ft (d_fs D) dl' cl' proc'
+              (fun q Hq => proj2 (Hproc q) (or_introl Hq)) NdC C1 C2 C3 _ Hbel r2 L2) as [E3 _].
+  change (no_through (d_events (rs_d (run_steps (cf_fl cfg) ft r2 (flat_map (copy_steps chunker S) cl'))))).
+  rewrite E3, E2. exact Hnt1.
+Qed.
+
 End AllRuns.
